@@ -118,3 +118,11 @@ impl<'data> CowBytes<'data> {
         ensures r@ == b@,
     { unimplemented!() }
 }
+
+// concatenation of the byte views of a chunk list (used by PushPayload::Vectored and LongChain)
+pub open spec fn flat(v: Seq<CowBytes>) -> Seq<u8>
+    decreases v.len(),
+{
+    if v.len() == 0 { Seq::<u8>::empty() } else { flat(v.drop_last()) + v.last()@ }
+}
+
